@@ -7,7 +7,7 @@ from .. import drv_lfr as D
 def run(ctx):
     q, rng = ctx.quick, ctx.rng
     ctx.model("MC_LFR", "MC_LFR%s.cfg" % ("" if q else "_deep"), require_actions=("Update",))
-    rep = lambda ts: (lambda i: {"params": ts[i]["params"], "cells": ts[i]["cells"], "seed": ts[i]["seed"]})
+    rep = lambda ts: (lambda i: {"params": ts[i]["params"], "cells": ts[i]["cells"], "seed": ts[i]["seed"], "enc": ts[i].get("enc", 0)})
     # every cell sequence of length n on the real class (small num_mc keeps the Monte-Carlo cheap)
     n, ncfg = (4, 2) if q else (6, 6)
     ts = []
@@ -22,7 +22,16 @@ def run(ctx):
                  nontrivial=lambda t: len({tuple(e["rstat"]) for e in t["ev"]}) >= 3)
     # regime-changing streams
     n2, ln = (14, 120) if q else (120, 300)
-    t2 = [D.run(D.params(rng), D.regime_cells(rng, ln), rng.randrange(10 ** 6)) for _ in range(n2)]
+    # the 0/1 labels arrive in the containers callers use (plain ints, bools from a comparison, numpy scalars, 1-element arrays):
+    # the cell of the confusion matrix, and nothing else about the labels, decides
+    import numpy as np
+    encs = [None, lambda a, b, t: (bool(a), bool(b)), lambda a, b, t: (np.bool_(a), np.bool_(b)), lambda a, b, t: (np.int64(a), np.int64(b)),
+            lambda a, b, t: (np.array([a]), np.array([b])), lambda a, b, t: (np.array([a]) > 0, np.array([b]) > 0), lambda a, b, t: ([a], [b])]
+    t2 = []
+    for i in range(n2):
+        t = D.run(D.params(rng), D.regime_cells(rng, ln), rng.randrange(10 ** 6), enc=encs[i % len(encs)])
+        t["enc"] = i % len(encs)
+        t2.append(t)
     ctx.validate("LFR", t2, "regime-changing (y_true, y_pred) streams", sabotage=D.sabotage, replay=rep(t2),
                  nontrivial=lambda t: any(e["state"] == "drift" for e in t["ev"]))
     ctx.assumptions += ["Monte-Carlo bounds are bound to the private _bounds dictionary when readable (otherwise no decision is forced); on a key's "
@@ -33,6 +42,9 @@ def run(ctx):
 
 def replay(ctx, bundle):
     r = bundle["replay"]
-    t = D.run(r["params"], [tuple(c) for c in r["cells"]], r["seed"])
+    import numpy as np
+    encs = [None, lambda a, b, t: (bool(a), bool(b)), lambda a, b, t: (np.bool_(a), np.bool_(b)), lambda a, b, t: (np.int64(a), np.int64(b)),
+            lambda a, b, t: (np.array([a]), np.array([b])), lambda a, b, t: (np.array([a]) > 0, np.array([b]) > 0), lambda a, b, t: ([a], [b])]
+    t = D.run(r["params"], [tuple(c) for c in r["cells"]], r["seed"], enc=encs[r.get("enc", 0)])
     ctx.validate("LFR", [t], "replay", replay=lambda i: r)
     return ctx.finish()
